@@ -24,8 +24,11 @@ META = {
 WS = {'space', 'hardline', 'line', 'line_', 'softline', 'softline_'}
 
 
-def _conv_space(o):
-    return any(a[0] == 'conv' and a[1].endswith('convert_space') and isinstance(a[2], Node) and a[2].tag.startswith('child') for a in o.atoms)
+space_leaf_ok = e2.space_leaf_ok
+
+
+def _conv_space(w, o):
+    return any(a[0] == 'conv' and isinstance(a[2], Node) and a[2].tag.startswith('child') and space_leaf_ok(w, a[1]) for a in o.atoms)
 
 
 def r1_math_space_mapping(w):
@@ -42,7 +45,7 @@ def r1_math_space_mapping(w):
             bad = None
             for o in g.paths:
                 made = list(o.made)
-                if _conv_space(o) and not [m for m in made if m in WS]:
+                if _conv_space(w, o) and not [m for m in made if m in WS]:
                     continue       # delegated to the Space leaf converter (R3)
                 ws = [m for m in made if m in WS]
                 if ws == [want]:
@@ -83,33 +86,38 @@ def r1_math_space_mapping(w):
     if ip_res is None:
         r.bad({'converter': 'convert_math_delimited'}, 'convert_math_delimited|peel|not-evaluated', 'edge-space handling of convert_math_delimited could not be evaluated', b.loc())
         return r
+    # per complete path: the peeled first / last child, and the whitespace documents of the RETURNED document in order (an edge Space handed to a
+    # helper that satisfies the Space-leaf contract counts as the whitespace that helper yields)
+    def want_of(item):
+        if isinstance(item, Node) and item.kind == 'Space':
+            return 'hardline' if item.linebreak else 'space'
+        return None
     seen = {}
-    for events in ip_res:
-        cur = None
-        for e in events:
-            if e[0] == 'peel':
-                cur = (e[1], repr(e[2]))
-                seen.setdefault(cur, set())
-            elif e[0] == 'make' and cur is not None and e[1] in WS | {'nil'}:
-                seen[cur].add(e[1])
-                cur_done = cur
-                cur = None
+    for events, result in ip_res:
+        peels = [(e[1], e[2]) for e in events if e[0] == 'peel']
+        if not isinstance(result, Doc):
+            continue
+        got = []
+        for a in result.flat():
+            if a[0] in WS:
+                got.append(a[0])
+            elif a[0] == 'conv' and isinstance(a[2], Node) and a[2].tag == 'peel' and a[2].kind == 'Space':
+                got.append(want_of(a[2]) if space_leaf_ok(w, a[1]) else 'conv:%s' % last(a[1]))
+        want = [x for x in (want_of(it) for _w, it in peels) if x]
+        for (which, it) in peels:
+            seen.setdefault((which, repr(it)), []).append((tuple(want), tuple(got), tuple((w_, repr(i_)) for w_, i_ in peels)))
     if len(seen) < 6:
         r.bad({'converter': 'convert_math_delimited', 'peels': len(seen)}, 'convert_math_delimited|peel|anchor', 'split_first/split_last handling not found (%d cases)' % len(seen), b.loc())
-    for (which, item), made in sorted(seen.items()):
-        cons = {'converter': 'convert_math_delimited', 'edge': which, 'item': item, 'made': sorted(made)}
-        if 'Space+nl' in item or ':Space+nl' in item or '+nl' in item:
-            want = {'hardline'}
-        elif '-nl' in item:
-            want = {'space'}
+    for (which, item), cases in sorted(seen.items()):
+        bad = [(wnt, got, pl) for (wnt, got, pl) in cases if wnt != got]
+        cons = {'converter': 'convert_math_delimited', 'edge': which, 'item': item, 'paths': len(cases)}
+        if not bad:
+            r.ok(cons, 'edge whitespace copied from the token\'s own text (returned document has exactly the whitespace of the peeled edge children, in order)')
         else:
-            want = {'nil'}
-        if made == want:
-            r.ok(cons, 'edge whitespace copied from the token\'s own text')
-        else:
+            wnt, got, pl = bad[0]
             r.bad(cons, 'convert_math_delimited|peel|%s|%s' % (which, item),
-                  'convert_math_delimited maps the %s inner child %s to %s, expected %s: the space / line break at the inner edge of the delimiters would be created, removed or converted'
-                  % ('first' if which == 'split_first' else 'last', item, sorted(made), sorted(want)), b.loc())
+                  'convert_math_delimited with edge children %s returns a document whose whitespace is %s, expected %s: the space / line break at the inner edge of the delimiters '
+                  'would be created, removed or converted' % ([x[1] for x in pl], list(got), list(wnt)), b.loc())
     return r
 
 
@@ -129,7 +137,7 @@ def _run_with_peel(w, b, peel):
         res = ip.run(m)
     except kf.PathLimit:
         return None
-    return [r_.events for r_ in res if hasattr(r_, 'result')]
+    return [(r_.events, r_.result) for r_ in res if hasattr(r_, 'result')]
 
 
 def r2_breaks_suppressed_below_math(w):
